@@ -132,7 +132,7 @@ qvector_t *qvector(size_t max, size_t objsize, int options) {
         vector->max = 0;
         vector->objsize = objsize;
     } else {
-        void *data = malloc(max * objsize);
+        void *data = (max <= SIZE_MAX / objsize) ? malloc(max * objsize) : NULL;
         if (data == NULL) {
             free(vector);
             errno = ENOMEM;
@@ -763,7 +763,10 @@ bool qvector_resize(qvector_t *vector, size_t newmax) {
         return true;
     }
 
-    void *newdata = realloc(vector->data, newmax * vector->objsize);
+    void *newdata = NULL;
+    if (newmax <= SIZE_MAX / vector->objsize) {
+        newdata = realloc(vector->data, newmax * vector->objsize);
+    }
     if (newdata == NULL) {
         errno = ENOMEM;
         vector->unlock(vector);
